@@ -53,6 +53,8 @@ SUITES = {
     "entry_heap":  ("random", "heap",  ["--entry"],           "debug",   (12, 60), (200, 200)),
     "entry_plain": ("random", "plain", ["--entry"],           "release", (12, 60), (200, 200)),
     "defects":     ("scripts", None,   [],                    "both",    (1, 1),    (0, 0)),
+    # the crate's own test suite (unit tests: R = 4, integration tests: R = 8) run with span tracing on
+    "repo_tests":  ("repotests", None, [],                    "debug",   (1, 1),    (0, 0)),
 }
 
 # scripted regression histories: (file under /verif/scripts/defects, elem)
@@ -133,9 +135,9 @@ ALL_MAP = ["core_heap", "core_plain", "core_zst", "rel_heap", "defects"]
 
 PROPS = {
     "C01": dict(suites=["entry_heap", "entry_plain", "sim_plain", "sim_heap", "tomb_plain", "tomb_heap", "core_heap", "core_plain", "core_zst", "rel_heap", "rel_plain", "defects"], mc=["Small", "CountR8"]),
-    "C02": dict(suites=["sim_plain", "sim_heap", "big_plain", "big_heap", "big_collide", "tomb_plain", "tomb_heap", "core_plain", "rel_plain", "core_heap", "defects"], mc=["CountR8", "CountR4"]),
-    "C03": dict(suites=["sim_plain", "sim_heap", "big_plain", "big_heap", "big_collide", "tomb_plain", "tomb_heap", "core_plain", "core_heap", "rel_plain", "set_heap", "defects"], mc=["Small", "CountR8"]),
-    "C04": dict(suites=["sim_plain", "sim_heap", "big_plain", "big_heap", "big_collide", "tomb_plain", "tomb_heap", "core_plain", "rel_plain", "limits_dbg", "limits_rel", "two_heap", "defects"], mc=["Small", "CountR8", "CountR4"], apalache=True),
+    "C02": dict(suites=["sim_plain", "sim_heap", "big_plain", "big_heap", "big_collide", "tomb_plain", "tomb_heap", "core_plain", "rel_plain", "core_heap", "defects", "repo_tests"], mc=["CountR8", "CountR4"]),
+    "C03": dict(suites=["sim_plain", "sim_heap", "big_plain", "big_heap", "big_collide", "tomb_plain", "tomb_heap", "core_plain", "core_heap", "rel_plain", "set_heap", "defects", "repo_tests"], mc=["Small", "CountR8"]),
+    "C04": dict(suites=["sim_plain", "sim_heap", "big_plain", "big_heap", "big_collide", "tomb_plain", "tomb_heap", "core_plain", "rel_plain", "limits_dbg", "limits_rel", "two_heap", "defects", "repo_tests"], mc=["Small", "CountR8", "CountR4"], apalache=True),
     "C05": dict(suites=["sim_plain", "sim_heap", "fault_heap", "fault_heap_rel", "tomb_plain", "tomb_heap", "core_heap", "rel_heap", "core_zst", "set_heap", "set_zst", "two_heap", "two_plain_rel", "defects"], mc=["Cursor", "CursorZst", "Iter", "Small", "CountR8"], asan=["two_heap", "two_plain_rel", "core_heap", "fault_heap", "set_heap", "tomb_heap", "defects"], miri=True),
     "C06": dict(suites=["entry_heap", "entry_plain", "core_heap", "rel_heap", "two_heap", "set_heap", "set_two", "defects"], mc=["Small"]),
     # after an injected panic the semantic/safety monitors are part of "the map stays memory-safe and
@@ -145,10 +147,10 @@ PROPS = {
                 after_fault=True),
     "C08": dict(suites=["core_heap", "rel_heap", "core_plain", "set_heap", "core_zst"], mc=["Small"]),
     "C09": dict(suites=["core_heap", "rel_heap", "core_plain", "set_heap", "set_zst"], mc=["Iter", "Small"]),
-    "C10": dict(suites=["sim_plain", "sim_heap", "limits_dbg", "limits_rel", "core_plain", "rel_plain", "set_heap", "defects"], mc=["CountR8", "Overflow", "OverflowDbg"]),
+    "C10": dict(suites=["sim_plain", "sim_heap", "limits_dbg", "limits_rel", "core_plain", "rel_plain", "set_heap", "defects", "repo_tests"], mc=["CountR8", "Overflow", "OverflowDbg"]),
     # a failed semantic monitor on a map that is the product of clone / clone_from in that run (a lookup
     # missing in the clone, wrong contents after a later call, ...) is C11's
-    "C11": dict(suites=["two_heap", "two_plain_rel", "set_two", "defects"], mc=["CountR8", "Small"], on_clones=True),
+    "C11": dict(suites=["two_heap", "two_plain_rel", "set_two", "defects", "repo_tests"], mc=["CountR8", "Small"], on_clones=True),
     "C12": dict(suites=["entry_heap", "entry_plain", "core_heap", "rel_heap", "core_plain", "core_zst", "defects"], mc=["Small"]),
     "C13": dict(suites=["set_heap", "set_two", "set_zst"], mc=["Small"]),
     "C14": dict(suites=["meta_heap", "meta_plain", "meta_set", "meta_zst"], mc=["Small"],
